@@ -4,4 +4,4 @@ from . import common_gauss as G
 
 def rules(ctx):
     G.mirror(ctx, "C07.mirror")
-    ctx.floor("C07.mirror", 20)
+    ctx.floor("C07.mirror", 14)
